@@ -92,6 +92,10 @@ def daun_transform(data, reg=0.0, degree=0, dr=1.0, direction='inverse',
     recon : m × n numpy array
         the transformed (half) image
     """
+    if direction not in ('forward', 'inverse'):
+        raise ValueError('Wrong direction "{}", must be "forward" or '
+                         '"inverse"'.format(direction))
+
     # make sure that the data has the right shape (1D must be converted to 2D)
     # and type:
     dim = len(data.shape)
